@@ -179,4 +179,77 @@ def run(chk, facts_dir, tier):
     from . import c02
     sprog = prog if "sierradb::writer_thread_pool::WriterSet::read_partition_latest_sequence" in prog.bodies else Program(facts_dir, crates=["sierradb-lib"])
     c02.newest_first(chk, sprog, "R5.5", (c02.WS + "read_stream_latest_version", c02.WS + "read_partition_latest_sequence"), 2)
+    live_segment_agreement(chk, sprog, "R5.6")
     return {}
+
+
+def _reads_field(body, name, owner_sub):
+    for bl in body.blocks:
+        for pr in _projections([bl["s"], bl["t"]]):
+            if pr.get("n") == name and owner_sub in str(pr.get("o", "")):
+                return True
+    return False
+
+
+def _projections(x, out=None):
+    out = [] if out is None else out
+    if isinstance(x, dict):
+        if "n" in x and "o" in x and "f" in x:
+            out.append(x)
+        for v in x.values():
+            _projections(v, out)
+    elif isinstance(x, list):
+        for v in x:
+            _projections(v, out)
+    return out
+
+
+def live_segment_agreement(chk, prog, rule):
+    """R5.6 (found D26)"""
+    chk.rule(rule, "LIVE SEGMENT AGREEMENT: the reopen scan (DatabaseBuilder::open) and the writer (BucketSegmentWriter::latest) pick the live segment of a bucket by the same "
+                   "criterion - the newest segment directory that holds an events file. A crash during rollover between creating the next segment's directory and its events "
+                   "file leaves an empty directory: if the scan counts it, the real live segment is loaded as a sealed one (through Closed*Index::open on index files that were "
+                   "never flushed) and reopening fails")
+    LATEST = "sierradb::bucket::segment::writer::BucketSegmentWriter::latest"
+    OPEN = "sierradb::database::DatabaseBuilder::open"
+    lfam = prog.family(LATEST) if LATEST in prog.bodies else []
+    if not lfam:
+        raise Inconclusive("BucketSegmentWriter::latest not found")
+    for b in lfam:
+        chk.analysed(b.path)
+    writer_checks = any((b.callee_decl(t) or "").rsplit("::", 1)[-1] in ("exists", "try_exists", "is_file", "metadata", "symlink_metadata")
+                        for b in lfam for _, t in b.calls())
+    ob = prog.body(OPEN)
+    ofam = prog.family(OPEN)
+    chk.analysed(ob.path)
+    oev = Ev(prog, ob)
+    by_path = {b.path: b for b in ofam}
+    folds = []
+    for bi, t in ob.calls():
+        c = ob.callee_decl(t) or ""
+        if c.endswith("Iterator::fold") and len(t["args"]) >= 3:
+            cl = strip(oev.operand(t["args"][2], (bi, "T")))
+            if cl[0] == "agg" and str(cl[1]).startswith("closure:"):
+                cb = by_path.get(str(cl[1]).split(":", 1)[1])
+                fam2 = [cb] + prog.children(cb.path) if cb is not None else []
+                if any((x.callee_decl(t2) or "").rsplit("::", 1)[-1] == "max" for x in fam2 for _, t2 in x.calls()) or \
+                        any("segment_id" in str(p_.get("n")) for x in fam2 for bl in x.blocks for p_ in _projections([bl["s"], bl["t"]])):
+                    folds.append((bi, t, fam2))
+    if not folds:
+        raise Inconclusive("DatabaseBuilder::open: the computation of the newest segment per bucket (a fold with max over segment ids) was not found; re-read it")
+    for bi, t, fam2 in folds:
+        recv = oev.operand(t["args"][0], (bi, "T"))
+        filt = []
+        for x in walk(recv):
+            if isinstance(x, tuple) and x and x[0] == "agg" and str(x[1]).startswith("closure:"):
+                fb = by_path.get(str(x[1]).split(":", 1)[1])
+                if fb is not None:
+                    filt.append(fb)
+        scan_checks = any(_reads_field(x, "events", "UnopenedFileSet") for x in filt + fam2)
+        if scan_checks == writer_checks:
+            chk.ok(rule, "both sides take the newest segment %s" % ("that has an events file" if scan_checks else "directory"), ob.where(t["line"]))
+        else:
+            chk.fail(rule, OPEN, "live-segment-criterion", "the reopen scan takes the newest segment %s as the live one, the writer the newest %s: after a crash between creating "
+                     "a segment's directory and its events file they disagree, the live segment is loaded as sealed and open fails" % (
+                         "with an events file" if scan_checks else "directory", "with an events file" if writer_checks else "directory"), ob, t["line"])
+    chk.floor(rule, len(folds), 1)
